@@ -464,8 +464,9 @@ class DataFrameSchemaBackend(PandasSchemaBackend):
         # Append missing columns
         concat_obj = pd.concat([check_obj, missing_obj], axis=1)
 
-        # Set column order
-        concat_obj = concat_obj[concat_ordered_cols]
+        # Set column order. Select every label once: selecting a repeated
+        # label returns all of its columns already.
+        concat_obj = concat_obj[list(dict.fromkeys(concat_ordered_cols))]
 
         return concat_obj
 
